@@ -5,7 +5,7 @@
     report the same optimal value for the same objective (for EVERY size, not only oracle size), never worse than greedy.
     rnp is excluded (known finding rnp-suboptimal); multifit scaling by powers of two is checked on the implementation.
     Statements only; proofs in Proofs/MetaProofs.v and Proofs/AgreeProofs.v. *)
-From Prtpy Require Import Base.Prelude Model.Binner Model.Objectives Model.Greedy Model.Packing Model.Covering Model.KK Model.CG Model.DP Model.SNP Model.CBLDM Spec.Partition Proofs.MetaProofs Proofs.AgreeProofs.
+From Prtpy Require Import Base.Prelude Model.Binner Model.Objectives Model.Greedy Model.Packing Model.Covering Model.KK Model.CG Model.DP Model.SNP Model.CBLDM Spec.Partition Proofs.MetaProofs Proofs.AgreeProofs Model.Balanced Proofs.BalancedProofs .
 
 Theorem C18_greedy_perm :
   forall (k : nat) (vs1 vs2 : list Z),
@@ -18,6 +18,13 @@ Theorem C18_roundrobin_perm :
   Permutation vs1 vs2 -> roundrobin id true k vs1 = roundrobin id true k vs2.
 Proof. exact roundrobin_perm. Qed.
 Print Assumptions C18_roundrobin_perm.
+
+Theorem C18_bidirectional_balanced_perm :
+  forall (k : nat) (vs1 vs2 : list Z),
+  Permutation vs1 vs2 ->
+  bidirectional_balanced id true k vs1 = bidirectional_balanced id true k vs2.
+Proof. exact bidirectional_balanced_perm. Qed.
+Print Assumptions C18_bidirectional_balanced_perm.
 
 Theorem C18_kk_perm :
   forall (k : nat) (vs1 vs2 : list Z),
@@ -67,6 +74,14 @@ Theorem C18_roundrobin_scale :
   0 < c -> roundrobin id true k (map (Z.mul c) vs) = scale_bins c (roundrobin id true k vs).
 Proof. exact roundrobin_scale. Qed.
 Print Assumptions C18_roundrobin_scale.
+
+Theorem C18_bidirectional_balanced_scale :
+  forall (c : Z) (k : nat) (vs : list Z),
+  0 < c ->
+  bidirectional_balanced id true k (map (Z.mul c) vs) =
+  scale_bins c (bidirectional_balanced id true k vs).
+Proof. exact bidirectional_balanced_scale. Qed.
+Print Assumptions C18_bidirectional_balanced_scale.
 
 Theorem C18_kk_scale :
   forall (c : Z) (k : nat) (vs : list Z),
